@@ -3,7 +3,7 @@
 // This source code is licensed under the MIT license found in the
 // LICENSE file in the root directory of this source tree.
 
-use alloc::{string::ToString, vec::Vec};
+use alloc::{format, string::ToString, vec::Vec};
 
 use air::{
     proof::{Proof, Queries, Table, TraceOodFrame},
@@ -67,6 +67,15 @@ impl<E: FieldElement, H: ElementHasher<BaseField = E::BaseField>> VerifierChanne
         // make sure AIR and proof base fields are the same
         if E::BaseField::get_modulus_le_bytes() != context.field_modulus_bytes() {
             return Err(VerifierError::InconsistentBaseField);
+        }
+
+        // the number of unique query positions is taken from the proof: it must be positive (the
+        // query parsers below assert it) and cannot exceed the number of queries that are drawn
+        if num_unique_queries == 0 || num_unique_queries as usize > air.options().num_queries() {
+            return Err(VerifierError::ProofDeserializationError(format!(
+                "number of unique queries must be between 1 and {}, but was {num_unique_queries}",
+                air.options().num_queries()
+            )));
         }
         let constraint_frame_width = air.context().num_constraint_composition_columns();
 
